@@ -69,6 +69,10 @@ ROUND_VALUES = [Fraction(k, 2) for k in range(-6, 7)]
 MARGIN = z3.RealVal('1/1000000')
 
 
+def _isnan(x):
+    return isinstance(x, float) and x != x
+
+
 def _with_margin(e, pol):
     """the branch condition e (taken with polarity pol) strengthened so that it holds with a margin: a witness satisfying the
     strengthened path condition is INTERIOR to the path, so floating-point evaluation of the same comparisons agrees with it"""
@@ -347,7 +351,9 @@ class Sx:
         return tol
 
     def close(self, a, b, tol=TOL):
-        """|a-b| <= tol as a condition (inf-aware)"""
+        """|a-b| <= tol as a condition (inf-aware; a NaN is close to nothing)"""
+        if _isnan(a) or _isnan(b):
+            return False
         if core._is_inf(a) or core._is_inf(b):
             if is_sym(a) or is_sym(b):
                 return False
@@ -361,7 +367,7 @@ class Sx:
 
     def prove_eq(self, a, b, label, tol=TOL):
         rob = None
-        if self.sym and not (core._is_inf(a) or core._is_inf(b)):
+        if self.sym and not (core._is_inf(a) or core._is_inf(b) or _isnan(a) or _isnan(b)):
             d = a - b
             if is_sym(d):
                 rob = [(d > tol + mg) | (-d > tol + mg) for mg in self.MARGINS]
@@ -369,6 +375,8 @@ class Sx:
 
     def prove_le(self, a, b, label, tol=0):
         """a <= b + tol"""
+        if _isnan(a) or _isnan(b):
+            return self.prove(False, label)
         if core._is_inf(a) or core._is_inf(b):
             if is_sym(a) or is_sym(b):
                 ok = (core._is_inf(a) and a < 0) or (core._is_inf(b) and b > 0)
